@@ -391,9 +391,11 @@ class ListGrader(AbstractGrader):
         if not self.config['partial_credit']:
             perfect = all(entry['ok'] is True for entry in best_result['input_list'])
             if not perfect:
-                for entry in best_result['input_list']:
-                    entry['ok'] = False
-                    entry['grade_decimal'] = 0
+                # Zero out copies: the entries are the very dictionaries the subgraders returned,
+                # which an author-defined grader may legitimately reuse between calls
+                best_result['input_list'] = [
+                    dict(entry, ok=False, grade_decimal=0) for entry in best_result['input_list']
+                ]
 
         return best_result
 
